@@ -4,6 +4,7 @@ import (
 	"bytes"
 	"container/heap"
 	"fmt"
+	"math"
 	"strconv"
 	"strings"
 )
@@ -306,6 +307,18 @@ func (l *orderColumnsRow) compareInt(lval, rval int64, reverse bool) int {
 }
 
 func (l *orderColumnsRow) compareFloat(lval, rval float64, reverse bool) int {
+	// NaN is not ordered with any number, give it a fixed place in front of
+	// the numbers: an unordered comparator breaks the order of all the rows
+	lnan, rnan := math.IsNaN(lval), math.IsNaN(rval)
+	if lnan || rnan {
+		switch {
+		case lnan && rnan:
+			return 0
+		case lnan != reverse:
+			return -1
+		}
+		return 1
+	}
 	if lval == rval {
 		return 0
 	}
